@@ -290,4 +290,63 @@ theorem gc_any_schedule (roots : Option (List Int)) (m : Mgr) (ext : Nat → Nat
   have hinvW : GcInv m ext W := ⟨hi.toInvS, hr, fun w hw => ((hW w).mp hw).1, hnd⟩
   exact (gc_runs_agree hinvW hinv (fun k => by rw [hW, hmem]) hr' hgr).2
 
+/-! ### rooted collection (`collect_garbage(roots)`, used by `swap`) -/
+
+/-- what a collection (full or rooted) establishes -/
+structure GcPost (m : Mgr) (ext : Nat → Nat) (W : Nat → Prop) (m' : Mgr) : Prop where
+  inv : Inv m'
+  refExact : RefExact m' ext
+  sub : GcSub m m'
+  cacheEmpty : m'.cache = {}
+  /-- exactly the count-0 cascade from the start worklist is removed -/
+  nodes : ∀ k x, m'.tbl.node? k = some x ↔ (m.tbl.node? k = some x ∧ ¬ Dead m.tbl ext W k)
+
+/-- the start worklist of `collect_garbage(roots)`: the given roots whose count is 0
+(every node, when `roots` is `None`) -/
+def gcStart (roots : Option (List Int)) (m : Mgr) (k : Nat) : Prop :=
+  m.ref[k]? = some 0 ∧ ∃ r ∈ gcRoots roots m, r.natAbs = k
+
+/-- `collect_garbage(roots)`: terminates without error, removes exactly the count-0 cascade
+from the roots, keeps the invariant and exact counts, empties the computed table -/
+theorem collectGarbage_rooted_spec (roots : Option (List Int)) (m : Mgr) (ext : Nat → Nat)
+    (hi : Inv m) (hr : RefExact m ext)
+    (hroots : ∀ r ∈ gcRoots roots m, (m.ref[r.natAbs]?).isSome) :
+    ∃ m', collectGarbage roots m = (.ok (), m') ∧ GcPost m ext (gcStart roots m) m' := by
+  obtain ⟨unused, mf, hrun, hgr, hinv, hmem⟩ := collectGarbage_run roots m ext hi.toInvS hr hroots
+  have e := hgr.mid (GcMid.init hinv)
+  have hWeq : (fun k => k ∈ unused) = gcStart roots m := funext fun k => propext (hmem k)
+  obtain ⟨a, b, c⟩ := gcFinish_post e.inv e.sub
+  refine ⟨gcFinish mf, hrun, a, b, c, rfl, ?_⟩
+  intro k x
+  have := e.final_nodes hr (fun k hk => hinv.zero k hk) k x
+  rw [hWeq] at this
+  exact this
+
+/-- a failing root lookup (`KeyError`) leaves the manager untouched -/
+theorem collectGarbage_error (roots : Option (List Int)) (m : Mgr) (e : Err)
+    (h : (unusedOf (gcRoots roots m) m).1 = .error e) : collectGarbage roots m = (.error e, m) := by
+  rw [collectGarbage_eq]
+  have hs := unusedOf_state m (gcRoots roots m)
+  simp only [gcBody]
+  revert h hs
+  cases unusedOf (gcRoots roots m) m with
+  | mk r m1 =>
+    intro h hs
+    simp only at h hs
+    subst h; subst hs; rfl
+
+/-- nothing reachable from a held node is ever in the removed set -/
+theorem GcPost.reach_kept {m m' : Mgr} {ext : Nat → Nat} {W : Nat → Prop} (h : GcPost m ext W m')
+    (h0 : InvS m) {u : Nat} (hu : Reach m.tbl (Held ext) u) : u = 1 ∨ (m'.tbl.node? u).isSome :=
+  reach_survives h.sub h.inv.toInvS h.refExact h0 hu
+
+/-- remaining references denote what they denoted -/
+theorem GcPost.den_eq {m m' : Mgr} {ext : Nat → Nat} {W : Nat → Prop} (h : GcPost m ext W m')
+    (u : Int) (hu : m'.tbl.Mem u) (a : Asg) : den m'.tbl u a = den m.tbl u a :=
+  den_sub h.sub h.inv.wf.toWF u hu a
+
+theorem GcFullPost.den_eq {m m' : Mgr} {ext : Nat → Nat} (h : GcFullPost m ext m')
+    (u : Int) (hu : m'.tbl.Mem u) (a : Asg) : den m'.tbl u a = den m.tbl u a :=
+  den_sub h.sub h.inv.wf.toWF u hu a
+
 end DD
